@@ -1009,6 +1009,27 @@ def rule_flush_schedules(ctx):
         if not ok:
             r.violate(cb.name, "advance", "a collection does not try to advance the epoch first: bags never expire when no "
                       "thread defers", cb.loc(0))
+        # ... and every collection pops: whoever the participant is (also one that lives on its guard alone, as every
+        # participant registered during thread tear-down does), a scheduled collection tries the global queue
+        popped = bool(pops) or any(e.kind in ("call", "hof") and "try_pop" in (e.target or "") for e in p.events)
+        if not popped:
+            # the pop inside a closure handed to an iterator adaptor the reader does not run (`try_for_each`)
+            for e in p.events:
+                cal = getattr(e, "callee", None) if e.kind in ("call", "hof") else None
+                for cn in (cal.closure_args() if cal is not None and hasattr(cal, "closure_args") else []):
+                    if cn in prog.bodies and any("try_pop" in (c.target or "") for (_, _, c) in prog.bodies[cn].calls()):
+                        popped = True
+        if not popped:
+            # (a path that leaves a `for _ in 0..N` loop before its first iteration is not a path: that N >= 1 is
+            #  EBR-TUNABLES' clause)
+            nx = [e for e in p.events if e.kind == "call" and (e.ntarget or "").endswith(("range::next", "Iterator>::next"))]
+            if nx and any(q.kind == "cond" and q.term == ("disc", nx[0].result) and q.value == 0 for q in p.events):
+                continue
+        r.instance("collect attempts to pop the global queue on every returning path", popped)
+        if not popped:
+            r.violate(cb.name, "no-pop", "a path of collect returns without attempting to pop an expired bag: collections "
+                      "run for such a participant reclaim nothing (a thread in tear-down that is the last user of the "
+                      "library never runs its destructors)", cb.loc(0))
     r.require(n, 1, "returning paths of Local::flush")
     return r
 
